@@ -481,6 +481,14 @@ func genCSPTPItem(t *rapid.T, target string) item {
 		msg.MessageLength = uint16(len(b))
 	}
 	csptp.EncodeMessage(b[:csptp.MinMessageLength], &msg)
+	// a prefix of a well-formed message, shorter than the fixed header, whose length field agrees with what is left
+	// (a consistent truncation passes every "length field == datagram length" test on its way)
+	if rapid.IntRange(0, 4).Draw(t, "short-consistent") == 0 {
+		n := rapid.IntRange(4, csptp.MinMessageLength-1).Draw(t, "short-len")
+		b = b[:n:n]
+		b[2], b[3] = 0, byte(n)
+		return item{Target: target, Hex: hx(b), Note: "csptp short, consistent length field"}
+	}
 	return item{Target: target, Hex: hx(b), Note: "csptp"}
 }
 
